@@ -392,6 +392,13 @@ T_C16_SplitterDone ==
 ---------------------------------------------------------------------------
 (* C17  state-time accounting after finalisation at T *)
 TT == Cfg.T
+\* the environment's initial_time (ticks).  Event times are recorded relative to it.  With T0 # 0 the statement's "T" can
+\* be read as the clock value at finalisation (T0 + TT) or as the elapsed time (TT); the library uses one for some totals and
+\* the other for others, so either is accepted per total, and the time before the environment existed is not compared with
+\* any activity (T_C17_Truth only for T0 = 0).  For T0 = 0 (every run but the "shifted" family) nothing changes.
+T0 == Cfg.T0
+TAbs == TT + T0
+IsT(x) == x = TT \/ x = TAbs
 StateSum(n) == LET s == e.nodes[n].states IN Sum([k \in DOMAIN s |-> s[k]], DOMAIN s)
 GroupA(n) == LET s == e.nodes[n].states IN s["SETUP_STATE"] + s["IDLE_STATE"] + s["ATLEAST_ONE_PROCESSING_STATE"] + s["ALL_ACTIVE_BLOCKED_STATE"]
 GroupB(n) == LET s == e.nodes[n].states IN s["SETUP_STATE"] + s["IDLE_STATE"] + s["ALL_ACTIVE_PROCESSING_STATE"] + s["ATLEAST_ONE_BLOCKED_STATE"]
@@ -399,14 +406,22 @@ T_C17_NonNeg == e.k = "final" => \A n \in 1..NN : \A k \in DOMAIN e.nodes[n].sta
 T_C17_SumT ==
   e.k = "final" => \A n \in 1..NN :
      IF Node(n).type = "machine"
-     THEN /\ GroupA(n) = TT /\ GroupB(n) = TT
-          /\ Sum([i \in 1..Len(e.nodes[n].occ) |-> e.nodes[n].occ[i]], 1..Len(e.nodes[n].occ)) = TT
-     ELSE StateSum(n) = TT
+     THEN /\ IsT(GroupA(n)) /\ IsT(GroupB(n))
+          /\ IsT(Sum([i \in 1..Len(e.nodes[n].occ) |-> e.nodes[n].occ[i]], 1..Len(e.nodes[n].occ)))
+     ELSE IsT(StateSum(n))
 T_C17_Setup ==
   e.k = "final" => \A n \in 1..NN : ("SETUP_STATE" \in DOMAIN e.nodes[n].states /\ TT >= Node(n).setup) =>
                                       e.nodes[n].states["SETUP_STATE"] = Node(n).setup
+\* finalised during the set-up period (or exactly at its end: the events of instant T are not processed): everything so far
+\* was set-up time
+T_C17_SetupPartial ==
+  (e.k = "final" /\ T0 = 0) => \A n \in 1..NN : ("SETUP_STATE" \in DOMAIN e.nodes[n].states /\ TT <= Node(n).setup) =>
+                                      e.nodes[n].states["SETUP_STATE"] = TT
+\* finalisation itself must work at every end time (an exception out of update_final_state_time leaves no totals at all)
+T_C17_Finalises ==
+  e.k = "final" => \A n \in 1..NN : e.nodes[n].err = ""
 T_C17_Truth ==
-  e.k = "final" => \A n \in 1..NN : LET s == e.nodes[n].states g == F.nd[n] IN
+  (e.k = "final" /\ T0 = 0) => \A n \in 1..NN : LET s == e.nodes[n].states g == F.nd[n] IN
      CASE Node(n).type = "machine" ->
             /\ s["IDLE_STATE"] = g.tIdle /\ s["ATLEAST_ONE_PROCESSING_STATE"] = g.tAnyP
             /\ s["ALL_ACTIVE_PROCESSING_STATE"] = g.tAllP /\ s["ATLEAST_ONE_BLOCKED_STATE"] = g.tAnyB
